@@ -33,7 +33,8 @@ package agent
 //@ pure keptBy(lookup map[string]string, x string) bool = parseOK(x) && has(lookup, nidOf(x)) && lookup[nidOf(x)] == hostOf(x)
 
 //@ func (*Agent).AddPeers
-//@ property C18
+//@ property C18 C15
+//@ safety on
 //@ requires !held(a.mu)
 //@ ensures [unlocked]    !held(a.mu) && a.started == old(a.started)
 //@ ensures [one-request] peercalls == old(peercalls) + 1 && poolcalls == old(poolcalls) + 1
@@ -49,11 +50,13 @@ package agent
 //@                          && lastPeerReq.Num == num && lastPeerReq.Kind == ownKind(a)
 
 //@ func (*Agent).Whitelist
-//@ property C18
+//@ property C18 C15
+//@ safety on
 //@ ensures [trusts-exactly-the-named-peer] trlen == old(trlen) + 1 && trarg[old(trlen)] == nodeID && rmlen == old(rmlen) && dclen == old(dclen) && cnlen == old(cnlen)
 
 //@ func (*Agent).UpdatePeers
-//@ property C18
+//@ property C18 C15
+//@ safety on
 //@ requires !held(a.mu)
 //@ ensures [unlocked] {C18 C20} !held(a.mu) && a.started == old(a.started)
 //@ ensures [calls]    {C18 C20} poolcalls >= old(poolcalls)
@@ -89,7 +92,8 @@ package agent
 //@                         && cnlen == old(cnlen) && trlen == old(trlen) && connectLogAppendOnly()
 
 //@ func (*Agent).Start
-//@ property C20 C10
+//@ property C20 C10 C15
+//@ safety on
 //@ requires !held(a.mu)
 //@ ensures [refuse-second] old(a.started) ==> err == ErrAlreadyStarted && spawned() == 0 && poolcalls == old(poolcalls)
 //@ ensures [one-loop]      err == nil ==> a.started && spawned() == 1 && !old(a.started)
